@@ -204,6 +204,63 @@ pub fn corpus() -> Vec<Vec<String>> {
         ],
     }];
     out.push(emit(16393, true, false, &X::new(), &[], &cs, None, (true, "shared-backend-id")));
+    // one minimal file per constraint-violating kind (so that every rejection branch is reached on every run)
+    {
+        let l_http = || L { proto: "http", addr: "127.0.0.1:8080".into(), h2: false, cert: None, ep: false, pa: false, x: X::new() };
+        let l_https = || L { proto: "https", addr: "127.0.0.1:8443".into(), h2: true, cert: None, ep: false, pa: false, x: X::new() };
+        let l_udp = || L { proto: "udp", addr: "127.0.0.1:5353".into(), h2: false, cert: None, ep: false, pa: false, x: X::new() };
+        let c_http = |cert: bool| C {
+            id: "web".into(),
+            tcp: false,
+            hc_bad: false,
+            x: x1(&[("lb", "ROUND_ROBIN".into())]),
+            fronts: vec![if cert {
+                F { addr: "127.0.0.1:8443".into(), cert: Some("c0".into()), x: x1(&[("host", "v.example.com".into())]) }
+            } else {
+                F { addr: "127.0.0.1:8080".into(), cert: None, x: x1(&[("host", "v.example.com".into())]) }
+            }],
+            backends: vec![B { addr: "127.0.0.1:4000".into(), id: None, x: X::new() }],
+        };
+        let c_tcp = || C { id: "raw".into(), tcp: true, hc_bad: false, x: X::new(), fronts: vec![F { addr: "127.0.0.1:9000".into(), cert: None, x: X::new() }], backends: vec![B { addr: "127.0.0.1:4001".into(), id: None, x: X::new() }] };
+        for v in ["unknown-protocol", "missing-protocol", "bad-address", "unknown-listener-field", "hsts-on-http-listener"] {
+            out.push(emit(16393, true, false, &X::new(), &[l_http(), l_https()], &[c_http(false)], Some(v), (false, v)));
+        }
+        for v in ["invalid-alpn", "disable-http11-with-http11-alpn", "listener-hsts-without-enabled"] {
+            out.push(emit(16393, true, false, &X::new(), &[l_https(), l_http()], &[c_http(false)], Some(v), (false, v)));
+        }
+        for v in ["missing-hostname", "hsts-on-http-frontend", "invalid-redirect", "invalid-redirect-scheme", "invalid-header-position", "invalid-header-key", "invalid-header-value", "unknown-frontend-field", "cluster-unknown-protocol", "unknown-cluster-field", "unknown-load-balancing", "bad-backend-address", "state-save-without-path", "bad-global-type"] {
+            out.push(emit(16393, true, false, &X::new(), &[l_http(), l_https()], &[c_http(false)], Some(v), (false, v)));
+        }
+        for v in ["hsts-without-enabled", "garbage-certificate"] {
+            out.push(emit(16393, true, false, &X::new(), &[l_http(), l_https()], &[c_http(true)], Some(v), (false, v)));
+        }
+        for v in ["tcp-front-with-hostname", "tcp-front-with-path", "tcp-front-with-certificate"] {
+            out.push(emit(16393, true, false, &X::new(), &[l_http()], &[c_tcp()], Some(v), (false, v)));
+        }
+        // structural neighbours the model decides: an HTTP frontend on a UDP listener, a TCP frontend on an HTTPS one
+        let mut k = c_http(false);
+        k.fronts[0].addr = "127.0.0.1:5353".into();
+        out.push(emit(16393, true, false, &X::new(), &[l_udp()], &[k], None, (false, "http-frontend-on-udp-listener")));
+        let mut k = c_tcp();
+        k.fronts[0].addr = "127.0.0.1:8443".into();
+        out.push(emit(16393, true, false, &X::new(), &[l_https()], &[k], None, (false, "tcp-frontend-on-http-listener")));
+        // health checks the state refuses, every way
+        for (key, val) in [("hctmo", "0"), ("hcunthr", "0"), ("hcthr", "0"), ("hcint", "0")] {
+            let mut k = c_http(false);
+            k.hc_bad = true;
+            k.x.insert("hcuri".into(), "/ok".into());
+            k.x.insert(key.into(), val.into());
+            out.push(emit(16393, true, false, &X::new(), &[l_http()], &[k], None, (false, "invalid-health-check")));
+        }
+        // UDP: a datagram size above buffer_size is clamped to it; a cluster with its [udp] block
+        let mut u = l_udp();
+        u.x.insert("maxrx".into(), "60000".into());
+        u.x.insert("maxflows".into(), "128".into());
+        let mut k = c_tcp();
+        k.fronts[0].addr = "127.0.0.1:5353".into();
+        k.x = x1(&[("lb", "HRW".into()), ("udp_aff", "SOURCE_IP_PORT".into()), ("udp_resp", "1".into()), ("udp_req", "2".into()), ("udp_pp", "true".into())]);
+        out.push(emit(16393, true, false, &X::new(), &[u], &[k], None, (true, "udp-knobs")));
+    }
     // hazards, minimal
     let two = |a: F, b: F| {
         vec![
@@ -301,7 +358,7 @@ pub fn gen(rng: &mut Rng, _thorough: bool) -> Vec<String> {
                 x.insert("epf".into(), "1".into());
             }
         } else {
-            for (k, lo, hi) in [("ft", 1u64, 600u64), ("bt", 1, 600), ("maxflows", 0, 5000), ("maxrx", 512, 16000)] {
+            for (k, lo, hi) in [("ft", 1u64, 600u64), ("bt", 1, 600), ("maxflows", 0, 5000), ("maxrx", 512, 40000)] {
                 if rng.chance(1, 4) {
                     x.insert(k.into(), rng.range(lo, hi).to_string());
                 }
@@ -406,6 +463,19 @@ pub fn gen(rng: &mut Rng, _thorough: bool) -> Vec<String> {
             }
         } else if rng.chance(1, 6) {
             x.insert("sendproxy".into(), rng.pick(&["true", "false"]).to_string());
+        }
+        if tcp && rng.chance(1, 5) {
+            // the datagram knobs of a cluster fronting UDP listeners
+            x.insert("udp_aff".into(), rng.pick(&["SOURCE_IP", "SOURCE_IP_PORT"]).to_string());
+            if rng.chance(1, 2) {
+                x.insert("udp_resp".into(), rng.below(5).to_string());
+            }
+            if rng.chance(1, 2) {
+                x.insert("udp_req".into(), rng.below(5).to_string());
+            }
+            if rng.chance(1, 3) {
+                x.insert("udp_pp".into(), rng.pick(&["true", "false"]).to_string());
+            }
         }
         let nf = if huge && ci == 0 && rng.chance(1, 2) { rng.range(100, 300) } else { *rng.pick(&[0u64, 1, 1, 1, 2, 2, 3, 5, 9]) } as usize;
         let nb = if huge && ci == 0 { rng.range(120, 300) } else { *rng.pick(&[0u64, 1, 1, 2, 2, 3, 4, 8]) } as usize;
